@@ -498,6 +498,16 @@ impl<'a> World<'a> {
     }
 
     /// crash-and-restore (or, in wire mode, plain store-and-reload) of the customer stage
+    /// The customer's copy of the merchant's public configuration: as built in process, or - when
+    /// the run encodes every hop or restores the customer from storage - as decoded from bytes.
+    fn cust_cfg(&self, m: &'static crate::mctx::MerchantCtx) -> &'static za::customer::Config {
+        if self.plan.wire || self.plan.crash != "none" {
+            &m.ccfg_wire
+        } else {
+            &m.ccfg
+        }
+    }
+
     fn persist_point(&mut self, ci: usize) {
         let step_no = self.chans[ci].customer_steps;
         self.chans[ci].customer_steps += 1;
@@ -832,7 +842,7 @@ impl<'a> World<'a> {
         }
         let ctx = ctx_for(self.plan.seed, ci, -1);
         let mut rng = self.customer_rng(ci, -1, "new");
-        let (req, proof) = Requested::new(&mut rng, &m.ccfg, cid, mb, cb, &ctx);
+        let (req, proof) = Requested::new(&mut rng, self.cust_cfg(m), cid, mb, cb, &ctx);
         self.note_entropy(&rng);
         let pt = atoms::trace(&proof);
         self.chans[ci].cid = Some(cid);
@@ -1034,14 +1044,14 @@ impl<'a> World<'a> {
         let mut accepted = false;
         let mut lockmsg = None;
         let new_stage = match stage {
-            Stage::Requested(r) => match r.complete(sig, &m.ccfg) {
+            Stage::Requested(r) => match r.complete(sig, self.cust_cfg(m)) {
                 Ok(i) => {
                     accepted = true;
                     Stage::Inactive(i)
                 }
                 Err(r) => Stage::Requested(r),
             },
-            Stage::Started(s) => match s.lock(sig, &m.ccfg) {
+            Stage::Started(s) => match s.lock(sig, self.cust_cfg(m)) {
                 Ok((l, lm)) => {
                     accepted = true;
                     lockmsg = Some(lm);
@@ -1155,14 +1165,14 @@ impl<'a> World<'a> {
         let sname = stage.name();
         let mut accepted = false;
         let new_stage = match stage {
-            Stage::Inactive(i) => match i.activate(tok, &m.ccfg) {
+            Stage::Inactive(i) => match i.activate(tok, self.cust_cfg(m)) {
                 Ok(r) => {
                     accepted = true;
                     Stage::Ready(r)
                 }
                 Err(i) => Stage::Inactive(i),
             },
-            Stage::Locked(l) => match l.unlock(tok, &m.ccfg) {
+            Stage::Locked(l) => match l.unlock(tok, self.cust_cfg(m)) {
                 Ok(r) => {
                     accepted = true;
                     Stage::Ready(r)
@@ -1263,7 +1273,7 @@ impl<'a> World<'a> {
         };
         let mut rng = self.customer_rng(ci, pay as i32, "start");
         let ctx = ctx_for(self.plan.seed, ci, pay as i32);
-        let start_result = ready.start(&mut rng, amt, &ctx, &m.ccfg);
+        let start_result = ready.start(&mut rng, amt, &ctx, self.cust_cfg(m));
         self.note_entropy(&rng);
         match start_result {
             Ok((started, sm)) => {
